@@ -1,7 +1,7 @@
 //! Whole tunnel sessions (real HttpDownstream + Tunnel + DirectForwarder over in-memory transports, real HTTP/1.1 bytes
 //! or a real h2 client) against canary TCP/UDP listeners on loopback: which requests cause egress, and how each is answered.
 //! in : [auth_cfg, http2, sni_mode, private_allowed] then per request four tokens: [method_kind] target header payload
-//!        auth_cfg : 0 no authenticator | 1 registry (u1:p1, "ü:pä ss") | 2 custom: registry pairs + SNI credentials "snicreds"
+//!        auth_cfg : 0 no authenticator | 1 registry (u1:p1, "ü:pä ss") | 2 custom: registry pairs + SNI credentials "snicreds-7e2a9c-canary"
 //!        sni_mode : 0 none | 1 "snicreds" | 2 "bad"
 //!        method_kind : 1 CONNECT | 6 GET | 7 POST | 8 PUT ; target: authority (CONNECT) or absolute URI, `@A` `@B` `@U` are
 //!                      replaced by the canary addresses (TCP A, TCP B, UDP)
@@ -25,7 +25,7 @@ struct Custom(RegistryBasedAuthenticator);
 impl Authenticator for Custom {
     fn authenticate(&self, source: &Source<'_>, id: &IdChain<u64>) -> Status {
         match source {
-            Source::Sni(x) if x == "snicreds" => Status::Pass,
+            Source::Sni(x) if x == "snicreds-7e2a9c-canary" => Status::Pass,
             Source::Sni(_) => Status::Reject,
             s => self.0.authenticate(s, id),
         }
@@ -36,6 +36,7 @@ pub fn clients() -> Vec<Client> {
     vec![
         Client { username: "u1".into(), password: "p1".into() },
         Client { username: "ü".into(), password: "pä ss".into() },
+        Client { username: "canaryuser".into(), password: "CFGPW-0b5e1c-canary".into() },
     ]
 }
 
@@ -266,8 +267,8 @@ pub fn session(toks: Vec<Tok>) -> Vec<Tok> {
         };
         let sni = match cfg[2] {
             0 => None,
-            1 => Some("snicreds".to_string()),
-            _ => Some("bad".to_string()),
+            1 => Some("snicreds-7e2a9c-canary".to_string()),
+            _ => Some("badcreds-51f0aa-canary".to_string()),
         };
         let c = canaries().await;
         let mut reqs = vec![];
